@@ -279,6 +279,7 @@ def execute(scn, guide=None, keep=False, observer=None):
             if op[0] == "connect":
                 s0 = k.ev("connect-call")
                 hist.append(("connect-call", None, s0, None))
+                t_c = k.now
                 try:
                     if scn.get("ctx"):
                         w.__enter__()              # `with writer:` form
@@ -288,8 +289,17 @@ def execute(scn, guide=None, keep=False, observer=None):
                 except SimAbort:
                     raise
                 except BaseException as e:
-                    hist.append(("connect-raise", None, k.ev("connect-raise", type(e).__name__, str(e)[:80]),
-                                 type(e).__name__))
+                    tmo = getattr(getattr(w, "_writer_delegate", w), "_timeout", 30.0)
+                    if "timed out" in str(e).lower() and k.now - t_c >= 0.99 * float(tmo):
+                        # the device really took longer than the writer's time-out to come on-line
+                        # (slow port, lost probe): connect() is entitled to give up; nothing to judge
+                        k.ev("connect-timeout-legit", round(k.now - t_c, 3))
+                        k.probe("obs.connect_timed_out")
+                        state["stopped_after_loss"] = True
+                        state["connect_timed_out"] = True
+                    else:
+                        hist.append(("connect-raise", None, k.ev("connect-raise", type(e).__name__, str(e)[:80]),
+                                     type(e).__name__))
                     if lost["fired"]:
                         state["stopped_after_loss"] = True
             elif op[0] == "connect_timeout":
